@@ -6,6 +6,14 @@
    reg_del <name> <chan> | reg_pdel <pattern> <chan> | reg_flush
    cands <key> <old|-> <new|->                          -> sorted candidate names
    reg_dump                                             -> hooks|out|tree|cross|expires (sorted names)
+   sinksim <hook> <chan> <key> <D> <outcomes> <writes>  the webhook path end to end (Model/FenceQueue.v) for a webhook,
+      a channel and a live connection with one fence definition, against the registry built with reg_set:
+      writes   = ';' separated, one write = wkey/old|-/new|-/acc/cmd/obj/old/glob/spatial/nofields/cross/written
+                 (rectangles for getQueueCandidates, then the arguments of fm)
+      outcomes = string of 0/1: results of the successive sends of the webhook's manager ("-" = none; afterwards healthy)
+      All writes are enqueued through queue_hooks (candidates of the registry, every candidate evaluated on the given
+      case), then the manager runs proc rounds (take, send) until the outcomes are used up and nothing is owed.
+      reply: accepted=<k,..> attempts=<k,..> queued=<k,..> channel=<k,..> live=<k,..>
    rectangles: minx,miny,maxx,maxy as decimal integers *)
 open Model
 open Conv
@@ -24,6 +32,56 @@ let rect_of s =
 
 let reg = ref reg_empty
 let names l = String.concat "," (List.sort compare (List.map (fun h -> hex_of_bytes h.h_name) l))
+
+let case_of c obj old g sp nf cr wr =
+  { c_cmd = cmd_of c; c_obj = otest_of obj; c_old = otest_of old; c_glob = (g = "1");
+    c_spatial = (sp = "1"); c_nofields = (nf = "1"); c_cross = (cr = "1"); c_written = (wr = "1") }
+
+let mlist l = match l with [] -> "-" | _ -> String.concat "," (List.map msg_str l)
+
+(* queue identities: one number per distinct hook name (injective) *)
+let ids : (string, int) Hashtbl.t = Hashtbl.create 64
+let nm (b : n list) : n =
+  let k = hex_of_bytes b in
+  match Hashtbl.find_opt ids k with
+  | Some i -> n_of_int i
+  | None -> let i = Hashtbl.length ids + 1 in Hashtbl.add ids k i; n_of_int i
+
+let sinksim hook chan key d outs writes =
+  let hookn = bytes_of_hex hook and chann = bytes_of_hex chan and k = bytes_of_hex key in
+  let hx = match List.find_opt (fun h -> h.h_name = hookn) !reg.hooks with
+    | Some h -> h | None -> failwith "sinksim: unknown hook" in
+  let uniq l = List.sort_uniq (fun a b -> compare (hex_of_bytes a.h_name) (hex_of_bytes b.h_name)) l in
+  let one w =
+    match String.split_on_char '/' w with
+    | [wk; old_r; new_r; acc; c; obj; old; g; sp; nf; cr; wr] ->
+        let x = case_of c obj old g sp nf cr wr in
+        let wk = bytes_of_hex wk in
+        SWrite { w_now = z_of_int 0; w_key = wk; w_cl = uniq (candidates !reg wk (rect_of old_r) (rect_of new_r));
+                 w_cf = (fun _ -> x); w_af = (fun _ -> acc = "1") }
+    | _ -> failwith "sinksim: bad write" in
+  let evs = List.map one (if writes = "-" then [] else String.split_on_char ';' writes) in
+  let h = nm hookn in
+  let q = ref (qrun hq_init (hist nm evs)) in
+  let outs = ref (if outs = "-" then [] else List.init (String.length outs) (fun i -> outs.[i] = '1')) in
+  let attempts = ref [] in
+  let rounds = ref 0 in
+  let continue = ref true in
+  while !continue && !rounds < 10000 do
+    incr rounds;
+    q := qstep !q (Mgr (h, z_of_int 1, []));            (* first transaction of proc *)
+    let tk = taken_list !q h in
+    let (sent, unsent) = send_all !outs tk in
+    let tried = sent @ (match unsent with [] -> [] | e :: _ -> [e]) in
+    attempts := !attempts @ List.map (fun e -> msg_decode e.e_msg) tried;
+    q := qstep !q (Mgr (h, z_of_int 1, !outs));          (* the sends + second transaction *)
+    let used = List.length tried in
+    outs := (let rec drop n l = if n <= 0 then l else match l with [] -> [] | _ :: r -> drop (n - 1) r in drop used !outs);
+    if tried = [] || (!outs = [] && pending !q h = []) then continue := false
+  done;
+  Printf.sprintf "accepted=%s attempts=%s queued=%s channel=%s live=%s"
+    (mlist (List.map (fun e -> msg_decode e.e_msg) (!q.q_delivered h))) (mlist !attempts)
+    (mlist (webhook_stream evs hookn)) (mlist (channel_stream evs chann)) (mlist (live_stream k (dset_of d) hx evs))
 
 let handle (toks : string list) : string =
   match toks with
@@ -50,6 +108,7 @@ let handle (toks : string list) : string =
   | ["cands"; key; old; nw] ->
       let l = candidates !reg (bytes_of_hex key) (rect_of old) (rect_of nw) in
       "ok " ^ String.concat "," (List.sort_uniq compare (List.map (fun h -> hex_of_bytes h.h_name) l))
+  | ["sinksim"; hook; chan; key; d; outs; writes] -> sinksim hook chan key d outs writes
   | ["reg_dump"] ->
       Printf.sprintf "ok %s|%s|%s|%s|%s" (names !reg.hooks) (names !reg.hooksOut) (names !reg.hookTree)
         (names !reg.hookCross) (names !reg.hookExpires)
